@@ -22,7 +22,7 @@ CHECKS = {
  "C06": ("model_checking", "trace validation by TLC of failing fan-outs under all interleavings",
          "FanOutFailsOnce, SiblingsFrozen, SiblingsCancelled, NoLateEffects plus the C02/C03/C09 clauses on every schedule of the failure family (failure subsets, Catch/Retry, nesting, timeouts).", "7 C06"),
  "C09": ("model_checking", "trace validation by TLC of the history store after every step",
-         "HistoryWellFormed (ids, previousEventId, timestamps, first event), ExitFollowsEnter, NothingAfterTerminal, HistAgreesWithRecord checked at every append and every record change of every run incl. the repository's own demo machines, "
+         "HistoryWellFormed (ids, previousEventId, timestamps, first event), ExitFollowsEnter, EnteredWithItsInput, NothingAfterTerminal, HistAgreesWithRecord checked at every append and every record change of every run incl. the repository's own demo machines, "
          "a scaled history-quota run and Map-level retries; GetExecutionHistory in both orders through the real API.", "7 C09"),
  "C11": ("model_checking", "trace validation by TLC: record vs notification vs history at every step",
          "NotifShape (CloudWatch keys, subject, integer millisecond dates), ViewsAgree (first stable record after a notification equals its detail), NotifiedOncePerChange, PublishDoesNotAlterRecord (record keeps epoch seconds).", "7 C11"),
